@@ -506,7 +506,7 @@ fn registry() -> Vec<Entry> {
         Vec<(Option<u8>, [bool; 2], String)>, BTreeMap<u8, (Vec<u8>, Option<BTreeSet<i8>>)>);
     // derive macro output
     reg!(r; Named, TupS, Nested, Gen1<u16>, Gen1<Ml>, Gen1<Vec<u8>>, Gen2<u8, bool>, Gen2<String, Option<Ml>>, Gen2<(u8, u8), Named>, UnitS, EmptyS, Deep,
-        Vec<Named>, Vec<TupS>, Option<Nested>, BTreeMap<TupS, Named>, BTreeSet<Gen2<u8, bool>>, [TupS; 2], Vec<UnitS>, CompressedChecked<Deep>, UncompressedUnchecked<Gen1<Ml>>);
+        Vec<Named>, Vec<TupS>, Option<Nested>, BTreeMap<TupS, Named>, BTreeSet<Gen2<u8, bool>>, [TupS; 2], CompressedChecked<Deep>, UncompressedUnchecked<Gen1<Ml>>);
     // containers of zero-width elements (restricted malformed streams)
     r.push(entry_zw::<Vec<()>>());
     r.push(entry_zw::<VecDeque<PhantomData<u8>>>());
@@ -587,7 +587,7 @@ impl Runner {
         let exe = std::env::current_exe().unwrap();
         let mut ch = Command::new("sh")
             .arg("-c")
-            .arg(format!("ulimit -v {}; exec \"$0\" __child", MEM_LIMIT_KIB))
+            .arg(format!("ulimit -c 0; ulimit -v {}; exec \"$0\" __child", MEM_LIMIT_KIB))
             .arg(exe)
             .env("RUST_BACKTRACE", "0")
             .stdin(Stdio::piped()).stdout(Stdio::piped()).stderr(Stdio::null())
@@ -673,15 +673,15 @@ fn streams(cx: &mut Ctx, idx: usize, e: &Entry, val: &V, valid: bool) {
         }
         if e.zw { continue; }
         // single-byte mutations
-        let pos: Vec<usize> = if n <= 16 || (cx.thorough && n <= 48) { (0..n).collect() } else {
-            let mut k: Vec<usize> = (0..9.min(n)).collect();
-            for _ in 0..(if cx.thorough { 20 } else { 6 }) { k.push(cx.rng.below(n as u64) as usize); }
+        let pos: Vec<usize> = if n <= 10 || (cx.thorough && n <= 48) { (0..n).collect() } else {
+            let mut k: Vec<usize> = vec![0, 3, 7, 8];
+            for _ in 0..(if cx.thorough { 20 } else { 5 }) { k.push(cx.rng.below(n as u64) as usize); }
             k.sort(); k.dedup(); k
         };
         for p in pos {
             let mut vals: Vec<u8> = vec![0x02, 0xff];
             if cx.thorough { vals.extend_from_slice(&[0x00, 0x01, 0x7f, 0x80]); }
-            vals.push(cx.rng.next() as u8);
+            if cx.thorough || cx.rng.below(2) == 0 { vals.push(cx.rng.next() as u8); }
             for x in vals {
                 if bytes[p] == x { continue; }
                 let mut b = bytes.clone();
@@ -692,13 +692,13 @@ fn streams(cx: &mut Ctx, idx: usize, e: &Entry, val: &V, valid: bool) {
         }
         // 8-byte windows overwritten with huge little-endian values (hits every length prefix)
         if n >= 8 {
-            let wins: Vec<usize> = if n <= 24 || (cx.thorough && n <= 64) { (0..=n - 8).collect() } else {
-                let mut k: Vec<usize> = vec![0, 8, 16, n - 8];
-                for _ in 0..(if cx.thorough { 10 } else { 3 }) { k.push(cx.rng.below((n - 7) as u64) as usize); }
+            let wins: Vec<usize> = if n <= 14 || (cx.thorough && n <= 64) { (0..=n - 8).collect() } else {
+                let mut k: Vec<usize> = vec![0, 8, n - 8];
+                for _ in 0..(if cx.thorough { 10 } else { 2 }) { k.push(cx.rng.below((n - 7) as u64) as usize); }
                 k.sort(); k.dedup(); k.retain(|x| *x + 8 <= n); k
             };
             for p in wins {
-                let cnt = if cx.thorough { 6 } else { 2 };
+                let cnt = if cx.thorough { 6 } else { 1 };
                 for _ in 0..cnt {
                     let h = HUGE[cx.rng.below(HUGE.len() as u64) as usize];
                     let mut b = bytes.clone();
@@ -711,7 +711,7 @@ fn streams(cx: &mut Ctx, idx: usize, e: &Entry, val: &V, valid: bool) {
         if top_prefixed(&e.ty) && n >= 8 {
             let rem = (n - 8) as u64;
             let mut lens: Vec<u64> = vec![rem + 1, rem + 2, 2 * rem + 1, 8 * rem + 9, 64 * rem + 4096, 64 * rem + 4097, 1 << 16, 1 << 20, 1 << 24];
-            if cx.thorough { lens.extend_from_slice(&HUGE); } else { for _ in 0..5 { lens.push(HUGE[cx.rng.below(HUGE.len() as u64) as usize]); } }
+            if cx.thorough { lens.extend_from_slice(&HUGE); } else { for _ in 0..3 { lens.push(HUGE[cx.rng.below(HUGE.len() as u64) as usize]); } }
             for l in lens {
                 let mut b = bytes.clone();
                 b[..8].copy_from_slice(&l.to_le_bytes());
@@ -781,7 +781,7 @@ fn fixed_streams(cx: &mut Ctx, reg: &[Entry]) {
     // containers of zero-width elements with a huge length (few: each may cost the watchdog time)
     for (ty, lens) in [(<Vec<()>>::ty(), vec![1u64 << 40, u64::MAX]), (<VecDeque<PhantomData<u8>>>::ty(), vec![1u64 << 40]),
                        (<LinkedList<()>>::ty(), vec![0x7fff_ffff, 0x8000_0000]), (<BTreeSet<()>>::ty(), vec![1u64 << 61]),
-                       (<Vec<[u8; 0]>>::ty(), vec![1u64 << 61]), (<BTreeMap<(), ()>>::ty(), vec![u64::MAX])] {
+                       (<Vec<[u8; 0]>>::ty(), vec![1u64 << 61]), (<Vec<UnitS>>::ty(), vec![1u64 << 40]), (<Vec<Vec<()>>>::ty(), vec![1u64 << 40]), (<BTreeMap<(), ()>>::ty(), vec![u64::MAX])] {
         let i = find(&ty);
         for l in lens { cx.de(i, &reg[i], "z", Compress::Yes, Validate::Yes, &l.to_le_bytes()); }
     }
